@@ -139,14 +139,25 @@ func genC09(rng *hx.Rng, n int, tier string, emit func(hx.Input)) {
 			out(*q)
 		}
 	}
-	// G3: sampled small material (about 45 %)
-	for i := 0; i < n*45/100; i++ {
+	// G8: constructed "only an en-passant capture can be played" positions and their neighbourhood
+	// (about 12 %; the attempts are bounded, the yield of the construction is about one in six)
+	for i, tries := 0, 0; i < n*12/100 && tries < 40*n; tries++ {
+		if p := posgen.EPOnly(rng); p != nil {
+			if p.Kind == "G8-near" && !rng.Chance(0.25) {
+				continue
+			}
+			out(*p)
+			i++
+		}
+	}
+	// G3: sampled small material (about 38 %)
+	for i := 0; i < n*38/100; i++ {
 		if p := smallSample(rng); p != nil {
 			out(*p)
 		}
 	}
-	// G7: themed random positions (about 30 %), biased towards few legal moves
-	for i, tries := 0, 0; i < n*30/100 && tries < 200*n; tries++ {
+	// G7: themed random positions (about 25 %), biased towards few legal moves
+	for i, tries := 0, 0; i < n*25/100 && tries < 200*n; tries++ {
 		p := posgen.Themed(rng)
 		if p == nil {
 			continue
